@@ -13,6 +13,9 @@ type oplist = Old of op0 list | Ext of xop list
 
 let events_of = function Old ops -> run_events ops | Ext ops -> xrun_events ops
 let nfiles_of = function Old ops -> run_nfiles ops | Ext ops -> xrun_nfiles ops
+(* the precondition of PROGRESS (coq/OwnersProgress.v: legal / xlegal) evaluated on every
+   step of the scenario, in the state the model is in: Some i = step i is not legal *)
+let illegal_of = function Old ops -> first_illegal ops | Ext ops -> xfirst_illegal ops
 
 let scenarios : (string * oplist) list = List.map (fun (n, l) -> (n, Old l)) [
   "append_rounds_snapshots", sc_append_rounds_snapshots;
@@ -78,6 +81,16 @@ let () =
         (match List.assoc_opt name scenarios with
          | None -> fail 0 ["no operation list for this scenario in OwnersScenarios.v / OwnersRevertScenarios.v"]
          | Some ops ->
+             (* a scenario the real code executes must be legal use in the model: else the
+                precondition of C15_legal_use_never_faults is stronger than what the harness does *)
+             match illegal_of ops with
+             | Some i ->
+                 Printf.printf "MISMATCH case=%d seed=%s step=%d label=%s kinds=model:owner-illegal-step\n"
+                   !cur_id !cur_seed (int_of_nat i) name;
+                 Printf.printf "  operation %d of the scenario is not legal (OwnersProgress.legal) where the model applies it\n"
+                   (int_of_nat i);
+                 Printf.printf "CASE %d seed=%s DISAGREE steps=%d nontrivial=1\n" !cur_id !cur_seed nsteps
+             | None ->
              match events_of ops with
              | None -> fail 0 ["the model refuses the scenario's operation list"]
              | Some mev ->
